@@ -383,6 +383,19 @@ fn families(quick: bool) -> Vec<Family> {
             fragsets: if quick { vec![vec![0, 0, 0], vec![0, 1, 2], vec![1, 0, 0]] } else { all_fragsets(3) },
         },
     ];
+    // a name repeated inside one import line next to later lines that ask the same file for its *other* fragments
+    // (seeded change C13-k: a file counted as "completely imported" once a line names as many targets as it defines)
+    v.push(Family {
+        layout: 0,
+        name: "n3-lines=3-repeated-target-names",
+        n: 3,
+        max_lines: 3,
+        min_lines: 3,
+        spells: vec![0],
+        targets: if quick { vec![0, 2, 4] } else { vec![0, 1, 2, 4] },
+        allow_missing: true,
+        fragsets: if quick { vec![vec![0, 0, 0], vec![0, 1, 2], vec![1, 0, 0]] } else { all_fragsets(3) },
+    });
     // same base name in two directories: /p/f1.graphql and /f1.graphql
     v.push(Family { layout: 1, name: "n3-same-name-in-parent-dir-lines<=2", n: 3, max_lines: 2, min_lines: 0, spells: vec![0, 1, 2], targets: vec![0, 1, 2, 3, 5], allow_missing: true, fragsets: all_fragsets(3) });
     v.push(Family {
